@@ -235,10 +235,10 @@ func (g *crashGen) sequence(base string, nops int) {
 			// power-loss images
 			var variants []func(name string, page, npages int) bool
 			variants = append(variants,
-				func(string, int, int) bool { return false },                                // nothing after the last flush reached the disk
-				func(_ string, p, n int) bool { return p == n-1 },                           // only the header page did
-				func(_ string, p, n int) bool { return p != n-1 },                           // everything but the header page
-				func(string, int, int) bool { return g.rnd.Intn(2) == 0 })                   // some pages
+				func(string, int, int) bool { return false },              // nothing after the last flush reached the disk
+				func(_ string, p, n int) bool { return p == n-1 },         // only the header page did
+				func(_ string, p, n int) bool { return p != n-1 },         // everything but the header page
+				func(string, int, int) bool { return g.rnd.Intn(2) == 0 }) // some pages
 			for _, v := range variants {
 				img := dirImage{}
 				for name, b := range cur {
